@@ -20,8 +20,19 @@ for f in selftest/sensitivity/*"$PAT"*.patch; do
   t0=$(date +%s)
   out=$(./check "$prop" --tier quick 2>&1); rc=$?
   t1=$(date +%s)
-  rules=$(echo "$out" | grep -o 'rule=[A-Za-z0-9-]*' | sort -u | tr '\n' ' ')
+  rules=$(echo "$out" | grep -o 'rule=[A-Z][A-Za-z0-9-]*' | sort -u | tr '\n' ' ')
   if [ $rc -eq 1 ]; then echo "CAUGHT   $(basename $f)  ${rules} ($((t1-t0))s)"; else echo "MISSED   $(basename $f)  rc=$rc ($((t1-t0))s)"; fail=1; fi
+done
+# independently written breaking changes (seeded/<ID>-x/patch.diff): each must be caught by the check of its property
+for d in seeded/*"$PAT"*/; do
+  [ -f "$d/patch.diff" ] || continue
+  name=$(basename "$d"); prop=${name%%-*}
+  git -C "$W" checkout -q -- . && git -C "$W" apply "$PWD/$d/patch.diff" || { echo "APPLY-FAILED $d"; fail=1; continue; }
+  t0=$(date +%s)
+  out=$(./check "$prop" --tier quick 2>&1); rc=$?
+  t1=$(date +%s)
+  rules=$(echo "$out" | grep -o 'rule=[A-Z][A-Za-z0-9-]*' | sort -u | tr '\n' ' ')
+  if [ $rc -eq 1 ]; then echo "CAUGHT   seeded/$name  ${rules} ($((t1-t0))s)"; else echo "MISSED   seeded/$name  rc=$rc ($((t1-t0))s)"; fail=1; fi
 done
 for f in selftest/benign/*.patch; do
   [ -n "$PAT" ] && break
